@@ -36,12 +36,26 @@ extern int __lsan_do_recoverable_leak_check(void) __attribute__((weak));
 
 /* ------------------------------------------------------------------ output */
 
-FILE *vout;
+FILE *vout_real;
+__thread FILE *vout = NULL;           /* per-thread memory stream of the line being built */
+static __thread char *vo_buf = NULL; static __thread size_t vo_len = 0;
 
 static pthread_mutex_t out_mu = PTHREAD_MUTEX_INITIALIZER;
 
-void out_lock(void) { pthread_mutex_lock(&out_mu); }
-void out_unlock(void) { fflush(vout); pthread_mutex_unlock(&out_mu); }
+/* a command builds its output line in memory (it may call into the library meanwhile) and emits it atomically */
+void out_lock(void) { vout = open_memstream(&vo_buf, &vo_len); }
+void out_unlock(void) {
+	fclose(vout); vout = NULL;
+	pthread_mutex_lock(&out_mu);
+	fwrite(vo_buf, 1, vo_len, vout_real); fflush(vout_real);
+	pthread_mutex_unlock(&out_mu);
+	free(vo_buf); vo_buf = NULL; vo_len = 0;
+}
+void out_raw(const char *s) {
+	pthread_mutex_lock(&out_mu);
+	fputs(s, vout_real); fflush(vout_real);
+	pthread_mutex_unlock(&out_mu);
+}
 
 void out_hex(const uint8_t *b, size_t n) {
 	static const char *hx = "0123456789abcdef";
@@ -235,6 +249,7 @@ static void cb_write(uint8_t *b, int32_t n) {
 	}
 	wire_total += (unsigned long) n;
 	pthread_mutex_unlock(&wire_mu);
+	sched_log_write(b, (size_t) n);
 	bus_downlink(b, (size_t) n);
 }
 
@@ -319,7 +334,7 @@ bool exec_line(char *line, int lineno, int thr) {
 	if (strcmp(op, "end") == 0) return false;
 
 #define HEAD() do { out_lock(); fprintf(vout, "{\"i\":%d,\"t\":%d,\"op\":\"%s\"", lineno, thr, op); } while (0)
-#define TAIL() do { fprintf(vout, ",\"now\":%lu}\n", (unsigned long) (vt_now_us() / 1000000)); out_unlock(); } while (0)
+#define TAIL() do { fprintf(vout, ",\"gs\":%lu,\"now\":%lu}\n", sched_stamp(), (unsigned long) (vt_now_us() / 1000000)); out_unlock(); } while (0)
 
 	if (strcmp(op, "debug") == 0) {
 		bidib_set_lowlevel_debug_mode(atoi(tok[1]) != 0);
@@ -386,11 +401,8 @@ bool exec_line(char *line, int lineno, int thr) {
 		int rc = ll_call(tok[1], n - 2, tok + 2);
 		HEAD(); fprintf(vout, ",\"fn\":\"%s\",\"rc\":%d", tok[1], rc); out_wire(); TAIL();
 	} else if (strcmp(op, "hl") == 0) {
-		HEAD(); fprintf(vout, ",\"fn\":\"%s\"", tok[1]);
-		out_unlock();
 		long r = hl_call(tok[1], n - 2, tok + 2);
-		out_lock();
-		fprintf(vout, ",\"ret\":%ld", r); out_wire(); TAIL();
+		HEAD(); fprintf(vout, ",\"fn\":\"%s\",\"ret\":%ld", tok[1], r); out_wire(); TAIL();
 	} else if (strcmp(op, "getall") == 0) {
 		HEAD(); fputs(",\"st\":", vout); proj_all(); out_wire(); TAIL();
 	} else if (strcmp(op, "get") == 0) {
@@ -409,8 +421,6 @@ bool exec_line(char *line, int lineno, int thr) {
 		                bidib_running ? 1 : 0, bidib_discard_rx ? 1 : 0, bidib_seq_num_enabled ? 1 : 0,
 		                bidib_lowlevel_debug_mode ? 1 : 0, log_count);
 		out_thr(); TAIL();
-	} else if (strcmp(op, "threads") == 0) {
-		conc_run(n - 1, tok + 1, lineno);
 	} else if (strcmp(op, "note") == 0) {
 		HEAD(); fputs(",\"text\":", vout); out_str(n > 1 ? tok[1] : ""); TAIL();
 	} else if (strcmp(op, "locks") == 0) {
@@ -444,10 +454,18 @@ static int run_script_child(size_t from, size_t to) {
 	upq = malloc(UPQ); wire = malloc(WIREMAX); chunk_len = malloc(sizeof(uint32_t) * CHUNKMAX);
 	vt_register_script_thread();
 	for (size_t i = from; i < to; i++) {
+		if (strncmp(script_lines[i], "threads", 7) == 0) {
+			/* concurrent section: lines up to "endthreads" belong to it */
+			size_t j = i + 1;
+			while (j < to && strncmp(script_lines[j], "endthreads", 10) != 0) j++;
+			conc_run(script_lines + i, j - i, (int) (i - from));
+			i = j;
+			continue;
+		}
 		if (!exec_line(script_lines[i], (int) (i - from), 0)) break;
 	}
 	if (bidib_running) bidib_stop();
-	fflush(vout);
+	fflush(vout_real);
 	return 0;
 }
 
@@ -463,8 +481,8 @@ int main(int argc, char **argv) {
 	}
 	FILE *in = strcmp(path, "-") == 0 ? stdin : fopen(path, "r");
 	if (!in) { perror(path); return 2; }
-	vout = stdout;
-	setvbuf(vout, NULL, _IOFBF, 1 << 16);
+	vout_real = stdout;
+	setvbuf(vout_real, NULL, _IOFBF, 1 << 16);
 	char *line = NULL; size_t cap = 0; ssize_t len;
 	char cur_id[256] = ""; size_t begin = 0; bool in_block = false;
 	while ((len = getline(&line, &cap, in)) >= 0) {
@@ -477,14 +495,14 @@ int main(int argc, char **argv) {
 		add_line(line);
 		if (strncmp(line, "end", 3) == 0 && (line[3] == '\n' || line[3] == 0 || line[3] == ' ')) {
 			in_block = false;
-			fflush(vout);
+			fflush(vout_real);
 			if (nofork) {
-				fprintf(vout, "{\"begin\":\"%s\"}\n", cur_id);
+				fprintf(vout_real, "{\"begin\":\"%s\"}\n", cur_id);
 				run_script_child(begin, script_n);
-				fprintf(vout, "{\"end\":\"%s\",\"status\":\"ok\",\"code\":0}\n", cur_id);
+				fprintf(vout_real, "{\"end\":\"%s\",\"status\":\"ok\",\"code\":0}\n", cur_id);
 				continue;
 			}
-			fprintf(vout, "{\"begin\":\"%s\"}\n", cur_id); fflush(vout);
+			fprintf(vout_real, "{\"begin\":\"%s\"}\n", cur_id); fflush(vout_real);
 			pid_t pid = fork();
 			if (pid == 0) {
 				fclose(in);
@@ -493,7 +511,7 @@ int main(int argc, char **argv) {
 					if (!freopen(ep, "w", stderr)) { /* keep the inherited stderr */ }
 				}
 				run_script_child(begin, script_n);
-				fflush(vout);
+				fflush(vout_real);
 				_exit(0);
 			}
 			int status = 0; bool timed_out = false;
@@ -509,8 +527,8 @@ int main(int argc, char **argv) {
 			if (timed_out) st = "timeout";
 			else if (WIFSIGNALED(status)) { st = "signal"; code = WTERMSIG(status); }
 			else if (WIFEXITED(status) && WEXITSTATUS(status) != 0) { st = "exit"; code = WEXITSTATUS(status); }
-			fprintf(vout, "{\"end\":\"%s\",\"status\":\"%s\",\"code\":%d}\n", cur_id, st, code);
-			fflush(vout);
+			fprintf(vout_real, "{\"end\":\"%s\",\"status\":\"%s\",\"code\":%d}\n", cur_id, st, code);
+			fflush(vout_real);
 			/* forget the block's lines */
 			for (size_t i = begin; i < script_n; i++) free(script_lines[i]);
 			script_n = begin;
